@@ -64,19 +64,40 @@ class TLCResult:
 _PRINT_RE = re.compile(r'^<<"([A-Z][A-Z0-9_]*)", (".*")>>$')
 
 
-def parse_prints(stdout: str) -> dict[str, list]:
-    """Collect ``<<"TAG", "json">>`` lines printed by PrintT(<<"TAG", ToJson(v)>>)."""
+def parse_prints(stdout: str, unparsed: list | None = None) -> dict[str, list]:
+    """Collect ``<<"TAG", "json">>`` values printed by PrintT(<<"TAG", ToJson(v)>>).
+
+    TLC's pretty-printer may wrap a long tuple over several lines (``<<"TAG",`` / ``  "..." >>``);
+    such values are re-assembled.  Anything that starts like a tagged print and cannot be decoded is
+    appended to ``unparsed`` (the runner turns that into a machinery failure: a silently dropped
+    scenario would make "everything explored" a lie)."""
     out: dict[str, list] = {}
-    for line in stdout.splitlines():
-        m = _PRINT_RE.match(line.strip())
-        if not m:
+    lines = stdout.splitlines()
+    k = 0
+    start_re = re.compile(r'^<<"([A-Z][A-Z0-9_]*)",')
+    while k < len(lines):
+        line = lines[k].strip()
+        k += 1
+        m0 = start_re.match(line)
+        if not m0:
             continue
-        try:
-            inner = json.loads(m.group(2))      # un-escape the TLA+ string
-            out.setdefault(m.group(1), []).append(json.loads(inner))
-        except json.JSONDecodeError:
-            # interleaved output of several workers: re-try by bracket matching below
-            continue
+        text = line
+        tries = 0
+        while not text.endswith(">>") and k < len(lines) and tries < 50:
+            text += " " + lines[k].strip()
+            k += 1
+            tries += 1
+        m = re.match(r'^<<"([A-Z][A-Z0-9_]*)",\s*(".*")\s*>>$', text, re.S)
+        ok = False
+        if m:
+            try:
+                val = json.loads(json.loads(m.group(2)))
+                out.setdefault(m.group(1), []).append(val)
+                ok = True
+            except json.JSONDecodeError:
+                ok = False
+        if not ok and unparsed is not None:
+            unparsed.append(text[:200])
     return out
 
 
@@ -167,7 +188,10 @@ def run_tlc(module: str, config: str | None = None, *, cfg_text: str | None = No
                         stdout=p.stdout + ("\n" + p.stderr if p.stderr.strip() else ""),
                         wall_s=time.time() - t0)
         _parse_stats(res)
-        res.prints = parse_prints(p.stdout)
+        bad: list = []
+        res.prints = parse_prints(p.stdout, bad)
+        if bad and check:
+            raise TLCError(f"{len(bad)} tagged TLC print(s) could not be decoded on {module}/{cfg_name}, e.g. {bad[0]}")
         if check and res.error is not None:
             raise TLCError(f"TLC machinery failure on {module}/{cfg_name}:\n{res.error}")
         return res
